@@ -931,6 +931,89 @@ pub fn near_limit(rng: &mut Rng) -> Vec<u8> {
 }
 
 // ---------------------------------------------------------------------------------------------
+// exhaustive single-field sweeps: every value of one field, everything else random
+
+/// 4 x 65536 port values (TCP4 source / destination, TCP6 source / destination),
+/// 8 x 256 octet values (every octet position of a TCP4 line),
+/// 16 x 65536 group values (every group position of a TCP6 line).
+pub const SWEEP_PORTS: u64 = 4 * 65536;
+pub const SWEEP_OCTETS: u64 = 8 * 256;
+pub const SWEEP_GROUPS: u64 = 16 * 65536;
+/// An address value of the sweep (the monitor crate converts it to its own representation).
+#[derive(Clone, Copy, Debug, PartialEq, Eq)]
+pub enum Val1 {
+    Tcp4 { src: [u8; 4], dst: [u8; 4], sp: u16, dp: u16 },
+    Tcp6 { src: [u8; 16], dst: [u8; 16], sp: u16, dp: u16 },
+}
+
+pub fn sweep_count() -> u64 {
+    SWEEP_PORTS + SWEEP_OCTETS + SWEEP_GROUPS
+}
+
+/// The address values of sweep case `idx` (the swept field takes its idx-determined value, the
+/// rest is random but keeps source != destination wherever the swept value allows it).
+pub fn sweep_values(idx: u64, rng: &mut Rng) -> Val1 {
+    if idx < SWEEP_PORTS {
+        let k = idx / 65536;
+        let p = (idx % 65536) as u16;
+        let mut other = rand_port(rng);
+        if other == p {
+            other = other.wrapping_add(1);
+        }
+        let (sp, dp) = if k % 2 == 0 { (p, other) } else { (other, p) };
+        if k < 2 {
+            let (a, b) = rand_v4_pair(rng);
+            Val1::Tcp4 { src: a, dst: b, sp, dp }
+        } else {
+            let (a, b) = rand_v6_pair(rng);
+            Val1::Tcp6 { src: bytes_of(a), dst: bytes_of(b), sp, dp }
+        }
+    } else if idx < SWEEP_PORTS + SWEEP_OCTETS {
+        let j = idx - SWEEP_PORTS;
+        let pos = (j / 256) as usize;
+        let val = (j % 256) as u8;
+        let (mut a, mut b) = rand_v4_pair(rng);
+        if pos < 4 {
+            a[pos] = val;
+        } else {
+            b[pos - 4] = val;
+        }
+        let (sp, dp) = rand_port_pair(rng);
+        Val1::Tcp4 { src: a, dst: b, sp, dp }
+    } else {
+        let j = idx - SWEEP_PORTS - SWEEP_OCTETS;
+        let pos = (j / 65536) as usize;
+        let val = (j % 65536) as u16;
+        let (mut a, mut b) = rand_v6_pair(rng);
+        if pos < 8 {
+            a[pos] = val;
+        } else {
+            b[pos - 8] = val;
+        }
+        let (sp, dp) = rand_port_pair(rng);
+        Val1::Tcp6 { src: bytes_of(a), dst: bytes_of(b), sp, dp }
+    }
+}
+
+/// The text line (without CRLF) of sweep case `idx`; TCP6 addresses in a random legal spelling.
+pub fn sweep_body(idx: u64, rng: &mut Rng) -> String {
+    match sweep_values(idx, rng) {
+        Val1::Tcp4 { src, dst, sp, dp } => format!("PROXY TCP4 {} {} {} {}", fmt_v4(src), fmt_v4(dst), sp, dp),
+        Val1::Tcp6 { src, dst, sp, dp } => {
+            let s1 = *rng.pick(&V6_STYLES);
+            let s2 = if rng.coin() { s1 } else { *rng.pick(&V6_STYLES) };
+            let line = format!("PROXY TCP6 {} {} {} {}", fmt_v6(groups_of(src), s1, rng), fmt_v6(groups_of(dst), s2, rng), sp, dp);
+            if line.len() + 2 > 107 {
+                // the longest spellings of two addresses do not fit: fall back to the canonical one
+                format!("PROXY TCP6 {} {} {} {}", fmt_v6(groups_of(src), V6Style::Canon, rng), fmt_v6(groups_of(dst), V6Style::Canon, rng), sp, dp)
+            } else {
+                line
+            }
+        }
+    }
+}
+
+// ---------------------------------------------------------------------------------------------
 // the shared v1 workload
 
 /// Streams of the general v1 workload; `unit` scales the random streams.
@@ -951,6 +1034,7 @@ pub fn v1_streams(tier: Tier, unit: u64) -> Vec<StreamSpec> {
             stream("v1-token-edit2s", tier.n(100, 30 * u, 0))
         },
         exhaustive("v1-mbcr", if tier == Tier::Miri { 400 } else { mbcr_count() }),
+        if tier == Tier::Miri { stream("v1-sweep-s", 200) } else { exhaustive("v1-sweep", sweep_count()) },
     ]
 }
 
@@ -1004,6 +1088,12 @@ pub fn v1_case(stream_name: &str, idx: u64, seed: u64) -> Vec<u8> {
             token_edit2(rng.below(c))
         }
         "v1-mbcr" => mbcr(idx).into_bytes(),
+        "v1-sweep" | "v1-sweep-s" => {
+            let i = if stream_name == "v1-sweep" { idx } else { rng.below(sweep_count()) };
+            let mut v = sweep_body(i, rng).into_bytes();
+            v.extend_from_slice(b"\r\n");
+            maybe_trailer(rng, v)
+        }
         _ => Vec::new(),
     }
 }
